@@ -33,3 +33,37 @@ def imax(a, b):
 def all_finite(A):
     """quantum and both bounds are finite"""
     return not is_fl(A.exp) and not is_fl(A.pos_bound) and not is_fl(A.neg_bound)
+
+
+# ---------------------------------------------------------------------------
+# effective precision / products
+
+def mvp(x, exp):
+    """bits of |x| in units of 2^exp (x a RealFloat whose exponent is not below exp): bl(|x| / 2^exp)
+    = bl(c) + (e - exp) for c > 0 (bit_length of c * 2^(e - exp))"""
+    return ite(x._c == 0, 0, bl(x._c) + x._exp - exp)
+
+
+def span_bits(A):
+    """bits needed to span the bounds of A at its quantum (all three finite, bounds_rep(A))"""
+    return imax(mvp(A.pos_bound, A.exp), mvp(A.neg_bound, A.exp))
+
+
+def eff_spec_ok(A, p):
+    """p is the effective precision of A: min(prec, bits to span the bounds at the quantum) where these are finite"""
+    if is_fl(A.prec):
+        if is_fl(A.pos_bound) or is_fl(A.neg_bound):
+            return is_fl(p) and p == PINF
+        return (not is_fl(p)) and (True if is_fl(A.exp) else p == span_bits(A))
+    if is_fl(A.pos_bound) or is_fl(A.neg_bound) or is_fl(A.exp):
+        return (not is_fl(p)) and p == A.prec
+    return (not is_fl(p)) and p == ite(span_bits(A) <= A.prec, span_bits(A), A.prec)
+
+
+def grid_is_exp(A, g):
+    return True if is_fl(A.exp) else g == A.exp
+
+
+def no_assert(A):
+    """effective_prec() asserts a finite quantum for a format with unbounded precision and two finite bounds"""
+    return not (is_fl(A.prec) and not is_fl(A.pos_bound) and not is_fl(A.neg_bound) and is_fl(A.exp))
